@@ -58,6 +58,9 @@ type FaultDB struct {
 	// CommitGate, if non-nil, is called (without the lock held) before a
 	// commit is applied; it may block (boundary scheduler).
 	CommitGate func(txn int)
+	// NewTxnGate, if non-nil, is called (without the lock held) before a
+	// transaction is created; it may block (a store that is slow to respond).
+	NewTxnGate func()
 	// TraceOps enables the fine-grained op trace (C14/C15).
 	TraceOps bool
 }
@@ -174,6 +177,9 @@ type faultTxn struct {
 }
 
 func (d *FaultDB) NewTransaction(ctx context.Context, _ bool) (database.Transaction, context.Context, error) {
+	if gate := d.NewTxnGate; gate != nil {
+		gate()
+	}
 	d.mu.Lock()
 	defer d.mu.Unlock()
 	d.txnSeq++
